@@ -1772,6 +1772,15 @@ def bb_bin(op, a, b):
     if a[0] == "bbconst" and b[0] == "bbconst":
         x, y = a[1], b[1]
         return ("bbconst", {"and": x & y, "or": x | y, "xor": x ^ y}[op])
+    # identities with the empty and the full set
+    for x, y in ((a, b), (b, a)):
+        if x[0] == "bbconst" and x[1] == 0:
+            return x if op == "and" else y
+        if x[0] == "bbconst" and x[1] == (1 << 64) - 1:
+            if op == "and":
+                return y
+            if op == "or":
+                return x
     return (op, a, b)
 
 
